@@ -28,9 +28,16 @@ type c11Case struct {
 }
 
 var (
-	c11Env  = interp.NewExecEnv("sh")
+	// (positional parameters with numeric values: a constant is a constant,
+	// whatever $1, $2 ... hold)
+	c11Env  = interp.NewExecEnv("sh", "40", "41", "42", "43", "44", "45", "46", "47", "48", "49", "50")
 	c11Vars = []string{"x", "y", "z", "x1"} // a name with a digit among them
 )
+
+// c11NonLvalues: operands of assignments and of ++ / -- that are no lvalues
+// (the first is a constant; the others contain a variable, and evaluating
+// them has no effect).
+var c11NonLvalues = []string{"1", "(1 ? x : y)", "(0 ? x : y)", "(x + 0)", "(0 || x)", "(- x)", "(1 ? (x) : 2)"}
 
 func c11Key(c c11Case) []string {
 	var st []string
@@ -323,6 +330,17 @@ func TestC11(t *testing.T) {
 			}
 		}
 	}
+	// targets that are no lvalues although a variable stands in them (none of
+	// them has an effect of its own)
+	var d1nl []*ref.ANode
+	for _, v := range c11NonLvalues[1:] {
+		for _, k := range []string{"preinc", "predec", "postinc", "postdec"} {
+			d1nl = append(d1nl, &ref.ANode{Kind: k, S: v})
+		}
+		for _, op := range c11Asgops {
+			d1nl = append(d1nl, &ref.ANode{Kind: "asg", Op: op, S: v, A: three})
+		}
+	}
 	idx := 0
 	each := func(tr *ref.ANode) {
 		idx++
@@ -347,6 +365,13 @@ func TestC11(t *testing.T) {
 	}
 	for _, tr := range d1 {
 		each(tr)
+	}
+	for _, tr := range d1nl {
+		each(tr)
+		// (and where the fault is not to be seen: in an operand that is not evaluated)
+		each(&ref.ANode{Kind: "bin", Op: "||", A: three, B: tr})
+		each(&ref.ANode{Kind: "cond", A: three, B: three, C: tr})
+		each(&ref.ANode{Kind: "bin", Op: "+", A: tr, B: &ref.ANode{Kind: "asg", Op: "=", S: "y", A: three}})
 	}
 	for _, tr := range d1 {
 		for _, op := range c11Unops {
@@ -396,7 +421,7 @@ func TestC11(t *testing.T) {
 			case 3:
 				lv := varGen.Draw(t, "lv")
 				if rapid.IntRange(0, 15).Draw(t, "nonlvalue") == 0 {
-					lv = "1"
+					lv = rapid.SampledFrom(c11NonLvalues).Draw(t, "nonlvalue_text")
 				}
 				return &ref.ANode{Kind: rapid.SampledFrom([]string{"preinc", "predec", "postinc", "postdec"}).Draw(t, "incdec"), S: lv}
 			case 4:
@@ -404,7 +429,7 @@ func TestC11(t *testing.T) {
 			case 5:
 				lv := varGen.Draw(t, "lv")
 				if rapid.IntRange(0, 15).Draw(t, "nonlvalue") == 0 {
-					lv = "2"
+					lv = rapid.SampledFrom(c11NonLvalues).Draw(t, "nonlvalue_text")
 				}
 				return &ref.ANode{Kind: "asg", Op: rapid.SampledFrom(c11Asgops).Draw(t, "asgop"), S: lv, A: treeGen(d-1).Draw(t, "a")}
 			default:
